@@ -36,6 +36,9 @@ struct Base {
     path: &'static str,
     query: &'static str,
     meta: bool,
+    /// shape of the signed x-amz-meta-a header (meta only): 0 one line; 1 two lines (canonical form joins them with ',');
+    /// 2 one line with inner runs of blanks (collapsed in the canonical form)
+    hshape: u8,
     h2: bool,
 }
 
@@ -45,12 +48,15 @@ fn bases() -> Vec<Base> {
         for path in ["/bkt/a", "/bkt/a%20b", "/bkt/a%2Bb", "/bkt/a/b", "/bkt/%C3%A9", "/bkt/a%3Fb%23c%25d", "/bkt/a%2520b"] {
             // (incl. parameters without a value, bare and with '=': sub-resource markers and empty prefixes are signed as `name=`)
             for query in ["", "a=1", "response-content-type=text%2Fplain", "versionId=v1&a=%20+", "k=%2541", "uploads", "tagging=", "prefix=&max-keys=1&delimiter"] {
-                for meta in [false, true] {
+                for (meta, hshape) in [(false, 0u8), (true, 0), (true, 1), (true, 2)] {
                     for h2 in [false, true] {
                         if h2 && (meta || !query.is_empty()) {
                             continue;
                         }
-                        v.push(Base { method, path, query, meta, h2 });
+                        if hshape > 0 && !(query.is_empty() || query == "a=1") {
+                            continue;
+                        }
+                        v.push(Base { method, path, query, meta, hshape, h2 });
                     }
                 }
             }
@@ -69,7 +75,14 @@ fn unsigned_req(b: &Base) -> Req {
         r.headers.push(("host".into(), HOST.as_bytes().to_vec()));
     }
     if b.meta {
-        r.headers.push(("x-amz-meta-a".into(), b"v".to_vec()));
+        match b.hshape {
+            0 => r.headers.push(("x-amz-meta-a".into(), b"v".to_vec())),
+            1 => {
+                r.headers.push(("x-amz-meta-a".into(), b"v1".to_vec()));
+                r.headers.push(("x-amz-meta-a".into(), b"v2".to_vec()));
+            }
+            _ => r.headers.push(("x-amz-meta-a".into(), b"a   b  c".to_vec())),
+        }
     }
     r
 }
@@ -113,6 +126,15 @@ enum Mutn {
     PathByte(usize),
     SignedHeaderValue,
     SignedHeaderRemoved,
+    /// a further line of a signed header, appended after / inserted before the signed one(s)
+    SignedHeaderLineAppended,
+    SignedHeaderLinePrepended,
+    /// the lines of a repeated signed header in the other order (another canonical value)
+    SignedHeaderLinesSwapped,
+    /// the last line of a repeated signed header dropped
+    SignedHeaderLineDropped,
+    /// equivalent: the blanks inside a signed header value written differently
+    EqSignedHeaderBlanks,
     SigDigit(usize),
     SigLength(usize),
     ProviderSecret,
@@ -136,6 +158,11 @@ impl Mutn {
             Mutn::PathByte(_) => "path-byte".into(),
             Mutn::SignedHeaderValue => "signed-header-value".into(),
             Mutn::SignedHeaderRemoved => "signed-header-removed".into(),
+            Mutn::SignedHeaderLineAppended => "signed-header-line-appended".into(),
+            Mutn::SignedHeaderLinePrepended => "signed-header-line-prepended".into(),
+            Mutn::SignedHeaderLinesSwapped => "signed-header-lines-swapped".into(),
+            Mutn::SignedHeaderLineDropped => "signed-header-line-dropped".into(),
+            Mutn::EqSignedHeaderBlanks => "equiv:signed-header-blanks".into(),
             Mutn::SigDigit(_) => "signature-digit".into(),
             Mutn::SigLength(_) => "signature-length".into(),
             Mutn::ProviderSecret => "provider-secret".into(),
@@ -159,6 +186,11 @@ fn mutations(r: &Req, b: &Base) -> Vec<Mutn> {
     if b.meta {
         m.push(Mutn::SignedHeaderValue);
         m.push(Mutn::SignedHeaderRemoved);
+        m.push(Mutn::SignedHeaderLineAppended);
+        m.push(Mutn::SignedHeaderLinePrepended);
+        m.push(Mutn::SignedHeaderLinesSwapped);
+        m.push(Mutn::SignedHeaderLineDropped);
+        m.push(Mutn::EqSignedHeaderBlanks);
     }
     for i in 0..64 {
         m.push(Mutn::SigDigit(i));
@@ -259,6 +291,34 @@ fn apply(mu: &Mutn, r: &mut Req, keys: &mut Vec<(String, String)>) -> bool {
         }
         Mutn::SignedHeaderValue => r.set_header("x-amz-meta-a", "w"),
         Mutn::SignedHeaderRemoved => r.remove_header("x-amz-meta-a"),
+        Mutn::SignedHeaderLineAppended => r.headers.push(("x-amz-meta-a".into(), b"extra".to_vec())),
+        Mutn::SignedHeaderLinePrepended => {
+            let at = r.headers.iter().position(|h| h.0 == "x-amz-meta-a").unwrap_or(0);
+            r.headers.insert(at, ("x-amz-meta-a".into(), b"extra".to_vec()));
+        }
+        Mutn::SignedHeaderLinesSwapped => {
+            let idx: Vec<usize> = r.headers.iter().enumerate().filter(|(_, h)| h.0 == "x-amz-meta-a").map(|(i, _)| i).collect();
+            if idx.len() < 2 {
+                return false;
+            }
+            r.headers.swap(idx[0], idx[1]);
+        }
+        Mutn::SignedHeaderLineDropped => {
+            let idx: Vec<usize> = r.headers.iter().enumerate().filter(|(_, h)| h.0 == "x-amz-meta-a").map(|(i, _)| i).collect();
+            if idx.len() < 2 {
+                return false;
+            }
+            r.headers.remove(idx[1]);
+        }
+        Mutn::EqSignedHeaderBlanks => {
+            for h in r.headers.iter_mut().filter(|h| h.0 == "x-amz-meta-a") {
+                let t = String::from_utf8_lossy(&h.1).into_owned();
+                if !t.contains(' ') {
+                    return false;
+                }
+                h.1 = format!("  {}  ", t.split_whitespace().collect::<Vec<_>>().join("     ")).into_bytes();
+            }
+        }
         Mutn::SigDigit(i) => {
             let idx = p.iter().position(|x| x.starts_with("X-Amz-Signature=")).unwrap();
             let mut s = p[idx]["X-Amz-Signature=".len()..].as_bytes().to_vec();
@@ -491,7 +551,7 @@ pub fn run(ctx: &Ctx) -> (Acc, Report) {
     });
     let rep = Report {
         level: "exploration",
-        rule: format!("{n_bases} presignable requests (GET/PUT x 7 keys (incl. a key that contains an escape-shaped text) x 8 extra-query shapes (incl. valueless parameters, bare and with '=') x signed headers {{host, host+meta}} x HTTP/1.1|2) x 14 X-Amz-Expires spellings x server-clock instants at signing time + {{-901,-900,-899,-1,0,1,E-1,E,E+1}} s and +-1 ms around both window edges; plus, inside the window, every single mutation/removal/duplication/case change of every query parameter, each signature digit, each credential field, method, each path byte, signed header value/removal, provider secret, and 2 equivalent rewrites. Oracle: reference verifier at the same instant. All judged cases are non-trivial; distinct by id."),
+        rule: format!("{n_bases} presignable requests (GET/PUT x 7 keys (incl. a key that contains an escape-shaped text) x 8 extra-query shapes (incl. valueless parameters, bare and with '=') x signed headers {{host, host+meta, host + a meta header sent on two lines, host + a meta header with inner runs of blanks}} x HTTP/1.1|2) x 14 X-Amz-Expires spellings x server-clock instants at signing time + {{-901,-900,-899,-1,0,1,E-1,E,E+1}} s and +-1 ms around both window edges; plus, inside the window, every single mutation/removal/duplication/case change of every query parameter, each signature digit, each credential field, method, each path byte, signed header value/removal, a further line of a signed header appended / prepended, the lines of a repeated signed header swapped / one dropped, provider secret, and 3 equivalent rewrites (parameter order, header name case, blanks inside a signed value). Oracle: reference verifier at the same instant. All judged cases are non-trivial; distinct by id."),
         exhaustive: true,
         extra: json!({"histories": hist_n, "history_requests_executed": hist_steps, "history_rule": "all sequences of length 1..3 over 8 requests of this property's scheme(s) (two identities x honest / signed with the other identity's secret x two scopes) plus every pair led by a request of another scheme, on one service instance, single-threaded, fixed order; each verdict = the reference verdict of that request alone", "base_requests": n_bases, "signing_instant_x_expiry_cases": n_instants, "signing_instant_rule": "7 signing instants (end of a leap day, of a year, of a century; midnight; 00:14:59; 2^31-1 s; a plain noon) x 5 expiries x the server clock second by second around t0-900, t0, t0+E and around every midnight in reach (thorough: the whole window for E <= 900)"}),
         assumptions: vec![
